@@ -129,6 +129,16 @@ def check_case(ctx, case):
             ctx.unexpected(o, "magnitude_test")
         else:
             compare("M", o.value, [x * scale for x in mg], w.sum(axis=0).tolist(), B)
+        # the M-test bins the observed magnitudes on the FORECAST's magnitude grid: a catalog that happens to be bound to a region
+        # object with another magnitude grid (same cells) gives the same result
+        other = call(lambda: S.L.build("from_origins", magnitudes=numpy.array([S.edges[0] - 1.0, S.edges[0] + 0.05, S.edges[-1] + 7.0])))
+        if other.ok:
+            o = call(P.magnitude_test, fore, S.catalog(other.value), num_simulations=nsim, random_numbers=numpy.array(U, dtype=float).reshape(nsim, n_obs))
+            if not o.ok:
+                ctx.unexpected(o, "magnitude_test:catalog_region_with_other_magnitude_grid")
+            else:
+                ctx.count("magnitude_tests_with_foreign_catalog_magnitude_grid")
+                compare("M:catalog_region_with_other_magnitude_grid", o.value, [x * scale for x in mg], w.sum(axis=0).tolist(), B)
     # ---- L (seeded; simulated arrays seen through a soft spy)
     seen = []
     orig = getattr(P, "_simulate_catalog", None)
